@@ -34,6 +34,14 @@ def handle : List String → String
     match Wire.parseInt b, parseRows rows with
     | some b, some rows => showRows (binTime b rows)
     | _, _ => "bad-args"
+  -- `pp <binSizeNs> <limit> <rows>`: `Statement.PostProcess` = `BinTime`, then the row limit; the cases
+  -- have `limit ≥` number of binned rows, so the limit cuts nothing
+  | ["pp", b, limit, rows] =>
+    match Wire.parseInt b, Wire.parseNat limit, parseRows rows with
+    | some b, some n, some rows =>
+      let o := binTime b rows
+      if n ≠ 0 ∧ n < o.length then "outside-domain" else showRows o
+    | _, _, _ => "bad-args"
   | _ => "bad-op"
 
 
